@@ -235,7 +235,10 @@ func summarize(w *World) map[string]string {
 				uniq = append(uniq, p)
 			}
 		}
-		out["job "+key] = fmt.Sprintf("result=%s ttlDeleted=%v exists=%v pods=%v", res, deletedBy[key] == "ttl", w.API.Peek(ResJobs, j.Namespace, j.Name) != nil, uniq)
+		// the number of attempts is timing dependent (a retry may or may not be created before
+		// another index decides the strategy); every create is judged by C08/C09's monitors instead
+		_ = uniq
+		out["job "+key] = fmt.Sprintf("result=%s ttlDeleted=%v exists=%v", res, deletedBy[key] == "ttl", w.API.Peek(ResJobs, j.Namespace, j.Name) != nil)
 	}
 	for _, o := range w.API.ListRaw(ResJobConfigs) {
 		jc := o.(*execution.JobConfig)
